@@ -168,14 +168,16 @@ Definition lookup (ix : index) (svlan cvlan : N) : option (str * nat) :=
   end.
 
 (* the "obvious" quadratic reference: scan every claim in sorted order *)
-Definition ref_lookup (cfg : config) (svlan cvlan : N) : option (str * nat) :=
-  match find (key_eqb svlan (SelExact cvlan)) (claims cfg) with
+Definition ref_lookup_in (cs : list claim) (svlan cvlan : N) : option (str * nat) :=
+  match find (key_eqb svlan (SelExact cvlan)) cs with
   | Some c => Some (c_name c, c_idx c)
-  | None => match find (key_eqb svlan SelAny) (claims cfg) with
+  | None => match find (key_eqb svlan SelAny) cs with
             | Some c => Some (c_name c, c_idx c)
             | None => None
             end
   end.
+Definition ref_lookup (cfg : config) (svlan cvlan : N) : option (str * nat) :=
+  ref_lookup_in (claims cfg) svlan cvlan.
 
 (* ValidateMatchIndex: None = accepted; Some (svlan, sel, prev, name) = first collision *)
 Fixpoint validate_aux (seen : list claim) (cs : list claim) : option (N * sel * str * str) :=
@@ -188,3 +190,28 @@ Fixpoint validate_aux (seen : list claim) (cs : list claim) : option (N * sel * 
       end
   end.
 Definition validate (cfg : config) : option (N * sel * str * str) := validate_aux [] (claims cfg).
+
+(* ---- compressed domain for the exhaustive 4096x4096 sweep ----
+   The endpoints of every parsed range: an S-VLAN range a..b (b = a + length - 1) contributes the
+   cut points a and b+1, an exact C-VLAN v contributes v and v+1.  Two VLAN values that compare
+   the same way against every cut point are in the same class; Proofs.lookup_class_invariant
+   shows lookup cannot tell them apart, so evaluating one representative per class is the full
+   sweep. *)
+Definition range_scuts (r : vrange) : list N :=
+  match parse_vlan_range (fst r), parse_cvlan (snd r) with
+  | Some (a :: l), Some _ => [a; (a + N.of_nat (length (a :: l)))%N]
+  | _, _ => []
+  end.
+Definition range_ccuts (r : vrange) : list N :=
+  match parse_vlan_range (fst r), parse_cvlan (snd r) with
+  | Some _, Some (SelExact v) => [v; N.succ v]
+  | _, _ => []
+  end.
+Definition s_cuts (cfg : config) : list N :=
+  flat_map (fun g : group => flat_map range_scuts (snd g)) (sort_groups cfg).
+Definition c_cuts (cfg : config) : list N :=
+  flat_map (fun g : group => flat_map range_ccuts (snd g)) (sort_groups cfg).
+
+(* representative of x's class: the largest cut point <= x (0 when there is none) *)
+Definition rep (cuts : list N) (x : N) : N :=
+  fold_left (fun m p => if (N.leb p x && N.ltb m p)%bool then p else m) cuts 0%N.
